@@ -10,6 +10,7 @@ import (
 	"sort"
 	"strings"
 	"sync"
+	"sync/atomic"
 	"time"
 
 	"github.com/olive-io/bpmn/schema"
@@ -43,6 +44,8 @@ type Inst struct {
 	tasks   []bpmn.TaskTrace
 	taken   int
 	readerD chan struct{}
+	held     *heldIngress
+	heldOnce sync.Once
 	// OnTrace, if set, is called by the reader goroutine for every trace
 	// (after recording). Used by C07 to cancel at an exact trace position.
 	OnTrace func(idx int, t tracing.ITrace)
@@ -75,6 +78,30 @@ type Options struct {
 	// that is NOT the element's own document (schema.DefaultDefinitions()), as
 	// the repository's engine tests do for explicit instantiation.
 	ForeignDefs bool
+	// HeldIngress (with MockClock): the event ingress the timers publish to
+	// holds the FIRST timer event it is handed until Inst.ReleaseIngress is
+	// called (a slow consumer): the next firing of a cycle timer then waits to
+	// be handed over.
+	HeldIngress bool
+}
+
+// heldIngress passes events on to the fan-out; the first timer event waits at the gate.
+type heldIngress struct {
+	fan  *event.FanOut
+	gate chan struct{}
+	seen int32
+}
+
+func (h *heldIngress) ConsumeEvent(ev event.IEvent) (event.ConsumptionResult, error) {
+	isTimer := false
+	switch ev.(type) {
+	case event.TimerEvent, *event.TimerEvent:
+		isTimer = true
+	}
+	if isTimer && atomic.AddInt32(&h.seen, 1) == 1 {
+		<-h.gate
+	}
+	return h.fan.ConsumeEvent(ev)
 }
 
 // busySource hands every new consumer a retained event at registration.
@@ -110,6 +137,7 @@ func NewFromDefs(defs *schema.Definitions, tr *quiesce.Tracker, o Options) (*Ins
 	}
 	ctx, cancel := context.WithCancel(parent)
 	var mock *clock.Mock
+	var held *heldIngress
 	if o.MockClock {
 		mock = clock.NewMockAt(ClockBase)
 		ctx = clock.ToContext(ctx, mock)
@@ -128,8 +156,14 @@ func NewFromDefs(defs *schema.Definitions, tr *quiesce.Tracker, o Options) (*Ins
 		if o.BusyBus {
 			src = busySource{fan}
 		}
+		var ingress event.IConsumer = fan
+		if o.HeldIngress {
+			held = &heldIngress{fan: fan, gate: make(chan struct{})}
+			ingress = held
+			builder = event.DefinitionInstanceBuildingChain(timer.EventDefinitionInstanceBuilder(ctx, held, tracer), event.WrappingDefinitionInstanceBuilder)
+		}
 		opts = append(opts, bpmn.WithTracer(tracer), bpmn.WithProcessEventDefinitionInstanceBuilder(builder),
-			bpmn.WithEventEgress(src), bpmn.WithEventIngress(fan))
+			bpmn.WithEventEgress(src), bpmn.WithEventIngress(ingress))
 	} else if o.HostTimers {
 		fan := event.NewFanOut()
 		tracer := tracing.NewTracer(ctx)
@@ -153,7 +187,7 @@ func NewFromDefs(defs *schema.Definitions, tr *quiesce.Tracker, o Options) (*Ins
 		cancel()
 		return nil, fmt.Errorf("new process: %w", err)
 	}
-	in := &Inst{Defs: defs, P: p, Ctx: ctx, Cancel: cancel, Tr: tr, Clock: mock, readerD: make(chan struct{})}
+	in := &Inst{Defs: defs, P: p, Ctx: ctx, Cancel: cancel, Tr: tr, Clock: mock, readerD: make(chan struct{}), held: held}
 	if o.SplitCtx {
 		in.runBase, in.runCancel = context.WithCancel(context.Background())
 		if mock != nil {
@@ -206,6 +240,13 @@ func (in *Inst) RunContext() context.Context {
 func (in *Inst) CancelBuild() { in.Cancel() }
 
 // CancelRun ends the context the instance was started with (Options.SplitCtx).
+// ReleaseIngress lets a held first timer event (Options.HeldIngress) through.
+func (in *Inst) ReleaseIngress() {
+	if in.held != nil {
+		in.heldOnce.Do(func() { close(in.held.gate) })
+	}
+}
+
 func (in *Inst) CancelRun() {
 	if in.runCancel != nil {
 		in.runCancel()
@@ -254,6 +295,7 @@ func (in *Inst) Close() {
 	if in.runCancel != nil {
 		in.runCancel()
 	}
+	in.ReleaseIngress()
 	t0 := time.Now()
 	defer func() {
 		if d := time.Since(t0); d > 200*time.Millisecond && os.Getenv("VERIF_DEBUG") != "" {
